@@ -4,9 +4,10 @@ usage: confirm_seed.py <PROP> [m1 m2 ...]   (reads /tmp/agentout/<PROP>/<m>/{pat
 import json, os, shutil, subprocess, sys, re
 HERE = os.path.dirname(os.path.dirname(os.path.abspath(__file__)))
 prop = sys.argv[1]
-src = f"/tmp/agentout/{prop}"
+src = os.path.join(os.environ.get("SEED_SRC", "/tmp/agentout"), prop)
+TAG = os.environ.get("SEED_TAG", "")
 ms = sys.argv[2:] or sorted(d for d in os.listdir(src) if os.path.isdir(os.path.join(src, d)) and os.path.exists(os.path.join(src, d, "patch.diff")))
-wt = f"/tmp/wt/confirm_{prop}"
+wt = f"/tmp/wt/confirm{TAG}_{prop}"
 subprocess.run(["git", "-C", "/repo", "worktree", "remove", "--force", wt], capture_output=True)
 subprocess.run(["git", "-C", "/repo", "worktree", "add", "-q", "--detach", wt, "HEAD"], check=True)
 # HYPOTHESIS_PROFILE=ci is the repository's own profile (tests/conftest.py): it only relaxes the 200 ms per-example deadline,
@@ -57,7 +58,7 @@ try:
         ok = out["demo_clean_exit"] == 0 and out["demo_mutated_exit"] != 0 and out["suite_ok"]
         out["confirmed"] = ok
         if ok:
-            dst = os.path.join(HERE, "seeded", f"{prop}_{m}")
+            dst = os.path.join(HERE, "seeded", f"{prop}_{TAG}{m}")
             os.makedirs(dst, exist_ok=True)
             open(os.path.join(dst, "patch.diff"), "w").write(diff)   # re-based on /repo HEAD
             shutil.copy(os.path.join(d, "demo.py"), os.path.join(dst, "demo.py"))
